@@ -5,8 +5,11 @@ CONSTANTS
   ExpireOnConsumed = FALSE
   IgnoreOverGap = FALSE
   Writable = FALSE
-SPECIFICATION TraceSpec
-INVARIANTS SeriesIndexed AckNotAhead NoLoss
-CONSTRAINT HighWater
-POSTCONDITION TraceAccepted
+  AtomicRound = FALSE
+  Name = {"m1", "bad"}
+  MaxEntries = 2
+  MaxCrash = 2
+  MaxFlush = 3
+SPECIFICATION MCSpec
+INVARIANTS AckNotAhead NoLoss SeriesIndexed
 CHECK_DEADLOCK FALSE
